@@ -420,6 +420,10 @@ func oracleLines(c *Ctx, spc *MsgSpec, out []byte) {
 					if !top {
 						cls = "c18-part-header-unfolded"
 					}
+					if top && strings.HasPrefix(raw, "Content-Type: multipart/signed; protocol=\"application/pkcs7-signature\"; micalg=sha-256;") {
+						// the one line of an S/MIME signed message that the writer produces unfolded (known finding)
+						cls = "c18-signed-content-type-line"
+					}
 					c.Violate(cls, fmt.Sprintf("header line of %d characters containing blanks: %.60q...", len(raw), raw), spc)
 				}
 			}
